@@ -55,6 +55,7 @@ type RealNode struct {
 	reqCancelled  bool                        // the context of the last RequestNewBlockProposal was cancelled when it returned
 	AheadUntil    uint64                      // a node sync accepted by the main loop has cancelled every context below this height
 	CancelledH, CancelledV uint64             // an election trigger handled by the main loop during an SPI call has cancelled every context of height CancelledH below view CancelledV
+	CurProposalHeight uint64                  // height of that message: a commit inside the delivery starts the next height and drains its cached proposals, which are not this message
 	CurProposalView *uint64                   // view of the PREPREPARE / NEW_VIEW being delivered (for the proposer monitor)
 
 	// observations for monitors
@@ -138,7 +139,7 @@ func (u *recBlockUtils) ValidateBlockProposal(ctx context.Context, blockHeight p
 	n := u.n
 	n.addOut(fmt.Sprintf("val:%d:%s:%s", uint64(blockHeight), n.enc.block(block), hexid(blockHash_)))
 	// C18: the proposer named to the consumer is the leader of the proposal's view: the member at position (view mod committee size)
-	if n.CurProposalView != nil && n.MonViol != nil {
+	if n.CurProposalView != nil && n.MonViol != nil && uint64(blockHeight) == n.CurProposalHeight {
 		ms := n.W.Committee(uint64(blockHeight))
 		if len(ms) > 0 {
 			want := ms[*n.CurProposalView%uint64(len(ms))].Id
